@@ -1,3 +1,4 @@
+import F3.Proofs.ValidatorGen2
 import F3.Proofs.ValidatorCached
 import F3.Proofs.ValidatorSound
 import F3.Proofs.ValidBridge
@@ -266,4 +267,46 @@ example : F3.Gen.Validate.validateByProgress 5 3 2 15 1 0 10 = 3 ∧ F3.Gen.Vali
     F3.Gen.Validate.validateByProgress 5 3 2 5 3 0 10 = 2 ∧ F3.Gen.Validate.validateByProgress 5 3 2 5 3 1 10 = 0 ∧
     F3.Gen.Validate.validateByProgress (2 ^ 64 - 3) 3 0 7 1 0 10 = 3 := by decide
 
+end F3.Props.C05
+
+/-! # Regenerated, second set (appended): ties to `tools/go2lean/targets.d/*2.json` -/
+namespace F3.Props.C05
+section Regenerated2
+open F3.Msg F3.Validator
+/-! ## Regenerated (2): the phase rules, `needsJustification` and the justification table of `gpbft/validator.go`
+
+Proved in `F3/Proofs/ValidatorGen2.lean` against `F3/Gen/Validate2.lean` (`targets.d/Validate2.json`). -/
+
+/-- the model's phase rules = the `switch msg.Vote.Phase` block of the source, all phases and rounds -/
+theorem phase_rules_are_regenerated (cfg : Cfg) (c : Committee) (m : Msg) (bottom : Bool) (pub : Nat) :
+    phaseRules cfg c m bottom pub =
+      decide (F3.Gen.Validate2.phaseRules m.vote.phase m.vote.round
+        (m.ticket == Sig.tok pub (.vrf cfg.net c.beacon m.vote.inst m.vote.round)) bottom = 0) :=
+  F3.Gen2Tie.phaseRules_is_regenerated cfg c m bottom pub
+
+/-- `needsJust` = `needsJustification` of the source -/
+theorem needs_just_is_regenerated (m : Msg) (bottom : Bool) :
+    needsJust m bottom = F3.Gen.Validate2.needsJustification m.vote.phase m.vote.round bottom :=
+  F3.Gen2Tie.needsJust_is_regenerated m bottom
+
+/-- the expectation table = the `map[Phase]map[Phase]struct{Round; Key}` literal of the source, for
+every phase pair and every `uint64` round (`Round - 1` wraps at 0 on both sides) -/
+theorem expectation_is_regenerated (ph round jph : Nat) (hr : round < 2 ^ 64) :
+    expectation ph round jph =
+      (F3.Gen2Tie.lookup2 (F3.Gen.Validate2.justExpectations round) ph jph).bind F3.Gen2Tie.justRow :=
+  F3.Gen2Tie.expectation_is_regenerated ph round jph hr
+
+/-- the round comparison (with the DECIDE exemption) = the source's condition -/
+theorem just_wrong_round_is_regenerated (mph jr er : Nat) :
+    (decide (jr ≠ er) && !anyRound mph er) = F3.Gen.Validate2.justWrongRound er jr mph :=
+  F3.Gen2Tie.justWrongRound_is_regenerated mph jr er
+
+-- non-vacuity
+example : F3.Gen.Validate2.phaseRules 1 0 true false = 0 ∧ F3.Gen.Validate2.phaseRules 1 1 true false = 1 ∧
+    F3.Gen.Validate2.phaseRules 2 1 false false = 5 ∧ F3.Gen.Validate2.phaseRules 5 0 true true = 7 ∧
+    F3.Gen.Validate2.phaseRules 9 0 true false = 8 ∧ F3.Gen.Validate2.phaseRules 4 9 false true = 0 := by decide
+example : expectation CONVERGE 0 COMMIT = some (maxU64, false) ∧ expectation COMMIT 7 PREPARE = some (7, true) ∧
+    expectation DECIDE 0 PREPARE = none := by decide
+
+end Regenerated2
 end F3.Props.C05
